@@ -280,8 +280,8 @@ func peelPointers(v any) any {
 		return nil
 	}
 	rv := reflect.ValueOf(v)
-	for rv.Kind() == reflect.Ptr && rv.Type().Elem().Kind() == reflect.Ptr {
-		if rv.IsNil() {
+	for hops := 0; rv.Kind() == reflect.Ptr && rv.Type().Elem().Kind() == reflect.Ptr; hops++ {
+		if rv.IsNil() || hops > 16 { // (type P *P tied to itself leads nowhere either)
 			return nil
 		}
 		rv = rv.Elem()
